@@ -13,4 +13,5 @@ open TruthModel.C13
 #print axioms rlabel_time
 #print axioms raise_no_panic
 #print axioms label_names
-#print axioms rlabel_name_collision
+#print axioms labelFor_time
+#print axioms labelFor_name
